@@ -204,6 +204,11 @@ def round_trip(s, viol, st, label, cfg=None):
                 if not cell_eq(a, v2[ri, ci]):
                     add("table-cell", "table cell [%d, %s]: %r -> %r" % (ri, t1.columns[ci], a, v2[ri, ci]))
                     break
+                if isinstance(a, float) and math.isnan(a) and v2[ri, ci] is None:
+                    # "with None mapped back to NaN": a NaN that went out as null must come back as NaN (pandas does that by itself for
+                    # columns that also hold numbers; a column that is NaN in every row comes back as an object column of None)
+                    add("table-cell-none-not-mapped-back", "table cell [%d, %s]: NaN came back as None (column is NaN in every row)" % (ri, t1.columns[ci]))
+                    break
     try:
         text2 = str(s2)
         if text2 != text:
